@@ -39,9 +39,13 @@ DATASETS = {
                  ("beta", [("r", None), ("a", 0)])],
 }
 # a store that cleaning has to touch: one trace references a missing parent
-DATASETS["dirty"] = [("alpha", [("r", None), ("a", 0)]),
+# (two of the broken traces have a proper root whose reachable part has the
+# shape of a consistent trace: one stored before it, one after it)
+DATASETS["dirty"] = [("alpha", [("r", None), ("b", 0), ("z", "MISSING")]),
+                     ("alpha", [("r", None), ("a", 0)]),
                      ("alpha", [("r", None), ("b", 0)]),
                      ("alpha", [("x", "MISSING"), ("y", 0)]),
+                     ("alpha", [("r", None), ("a", 0), ("z", "MISSING")]),
                      ("beta", [("r", None), ("a", 0), ("b", 1)])]
 # time_buffer = 1 minute: anchors at minute 0 and 5 fix the window [1, 4];
 # offsets are (start, end) in minutes per span, default derived from k, i
